@@ -1412,6 +1412,15 @@ func (bc *BlockChain) reorg(oldBlock, newBlock *types.Block) error {
 		}
 		addedTxs = append(addedTxs, newChain[i].Transactions()...)
 	}
+	// Delete any canonical number assignments above the new head (reorg to a shorter chain)
+	if len(newChain) > 0 && err == nil {
+		for i := newChain[0].NumberU64() + 1; ; i++ {
+			if GetCanonicalHash(bc.db, i) == (common.Hash{}) {
+				break
+			}
+			DeleteCanonicalHash(bc.db, i)
+		}
+	}
 
 	// regardless of WriteTxLookupEntries error
 	diff := types.TxDifference(deletedTxs, addedTxs)
